@@ -265,19 +265,58 @@ Definition is_none (t : tokv) : bool := match t with TNone => true | TRaw [] => 
 Definition auth_gate (s : state) (t : tokv) : option bytes :=
   if is_none t then None else access_check s t.
 
+(* The interceptors hand the verified user name on in a request header (usernameHeaderKey =
+   "user_name_in_token"); the request may already carry headers of the client's choosing.
+   http.Header: keys are canonical MIME keys, Get returns the first value, Set replaces all values,
+   Add appends. *)
+Definition hdr := (bytes * bytes)%type.
+Definition is_lower_b (c : Z) : bool := (97 <=? c) && (c <=? 122).
+Definition is_upper_b (c : Z) : bool := (65 <=? c) && (c <=? 90).
+Fixpoint canon_from (up : bool) (k : bytes) : bytes :=
+  match k with
+  | [] => []
+  | c :: k' =>
+      let c' := if up then (if is_lower_b c then c - 32 else c) else (if is_upper_b c then c + 32 else c) in
+      c' :: canon_from (c =? 45) k'
+  end.
+(* textproto.CanonicalMIMEHeaderKey on keys made of token characters *)
+Definition canon_key (k : bytes) : bytes := canon_from true k.
+(* "user_name_in_token" *)
+Definition USERHDR_RAW : bytes := [117;115;101;114;95;110;97;109;101;95;105;110;95;116;111;107;101;110].
+Definition USERHDR : bytes := canon_key USERHDR_RAW.
+(* the header map of a received request *)
+Definition canon_hdrs (hs : list hdr) : list hdr := map (fun kv => (canon_key (fst kv), snd kv)) hs.
+Fixpoint hdr_get (hs : list hdr) (k : bytes) : bytes :=
+  match hs with
+  | [] => []
+  | (k', v) :: hs' => if bytes_eqb k' k then v else hdr_get hs' k
+  end.
+Definition hdr_set (hs : list hdr) (k v : bytes) : list hdr :=
+  filter (fun kv => negb (bytes_eqb (fst kv) k)) hs ++ [(k, v)].
+Definition hdr_add (hs : list hdr) (k v : bytes) : list hdr := hs ++ [(k, v)].
+
+(* the user name the later interceptors and the WebSocket upgrade read after authInterceptor recorded
+   the token's user: with Set (the code) / with Add (the slip the refutation is about) *)
+Definition ident_hdr (addmode : bool) (hdrs : list hdr) (tokuser : bytes) : bytes :=
+  let h := canon_hdrs hdrs in
+  hdr_get (if addmode then hdr_add h USERHDR tokuser else hdr_set h USERHDR tokuser) USERHDR.
+
 (* streamInterceptor = authInterceptor then permissionInterceptor on the stream path
    ([path] is the stream path: for a segment URL the repaired code drops the sequence number,
    before the repair it was part of the path that had to be covered) *)
-Definition stream_gate (fixed : bool) (s : state) (t : tokv) (path : bytes) (seg : option bytes) : Z * bytes :=
+Definition stream_gate_h (addmode fixed : bool) (s : state) (t : tokv) (path : bytes) (seg : option bytes)
+           (hdrs : list hdr) : Z * bytes :=
   match auth_gate s t with
   | None => (401, [])
-  | Some uname =>
+  | Some tokuser =>
+      let uname := ident_hdr addmode hdrs tokuser in
       let checked := match seg with
                      | Some n => if fixed then path else path ++ SLASH :: n
                      | None => path
                      end in
       if perm_go (users s) uname PULL checked then (200, uname) else (403, uname)
   end.
+Definition stream_gate := stream_gate_h false.
 
 (* ------------------------------------------------------------------ *)
 (* RTSP sessions (plain and over WebSocket)                             *)
@@ -440,11 +479,12 @@ Inductive event :=
 | ERefresh (t : tokv)
 | ERtspOpen
 | ERtsp (k : nat) (m : Z) (path : bytes) (cr : cred)
-| EWsOpen (kind : Z) (path : bytes) (t : tokv) (chan : nat)   (* 0 rtsp, 1 control, 2 data (joins connection chan), 3 flv *)
+| EWsOpen (kind : Z) (path : bytes) (t : tokv) (chan : nat) (hdrs : list (bytes * bytes))   (* 0 rtsp, 1 control, 2 data (joins connection chan), 3 flv *)
 | EWsRtsp (k : nat) (m : Z) (path : bytes)
 | EWsp (k : nat) (m : Z) (path : bytes)
-| EHttp (kind : Z) (path : bytes) (t : tokv) (seq : Z)         (* 0 flv, 1 m3u8, 2 segment *)
-| EApi (ep : Z) (t : tokv) (u : user) (upd_pw : bool) (name : bytes).
+| EHttp (kind : Z) (path : bytes) (t : tokv) (seq : Z) (hdrs : list (bytes * bytes))         (* 0 flv, 1 m3u8, 2 segment *)
+| EApi (ep : Z) (t : tokv) (u : user) (upd_pw : bool) (name : bytes) (hdrs : list (bytes * bytes)).
+(* hdrs: request headers chosen by the client (the interceptors talk to each other through a request header) *)
 
 Record obs := { o_code : Z; o_aux : Z; o_media : bool; o_id : Z; o_reg : list Z }.
 Definition ob (code aux : Z) (media : bool) (id : Z) : obs :=
@@ -465,17 +505,18 @@ Definition EP_SERVER : Z := 7.
 Definition ep_open (ep : Z) : bool := ep =? EP_SERVER.
 Definition ep_read (ep : Z) : bool := (ep =? EP_STREAMS) || (ep =? EP_STREAM_INFO).
 
-Definition api_gate (s : state) (ep : Z) (t : tokv) : Z :=
+Definition api_gate_h (addmode : bool) (s : state) (ep : Z) (t : tokv) (hdrs : list hdr) : Z :=
   if ep_open ep then 2
   else match auth_gate s t with
        | None => 401
-       | Some uname =>
+       | Some tokuser =>
            if ep_read ep then 2
-           else match find_user (users s) uname with
+           else match find_user (users s) (ident_hdr addmode hdrs tokuser) with
                 | Some u => if u_admin u then 2 else 403
                 | None => 403
                 end
        end.
+Definition api_gate := api_gate_h false.
 
 (* the segments a primed playlist lists are asked for by index 0..2; anything else does not exist *)
 Definition seg_listed (seq : Z) : bool := (0 <=? seq) && (seq <? 3).
@@ -522,8 +563,9 @@ Definition step_rtsp (fixed : bool) (watch : list bytes) (s : state) (k : nat) (
          with_reg (ob code 0 ((m =? M_PLAY) && (c_status c2 =? 2) && flowing r2 c2) 0) watch r2)
     end.
 
-Definition step_wsopen (fixed : bool) (s : state) (kind : Z) (path : bytes) (t : tokv) (chan : nat) : state * obs :=
-  let '(code, uname) := stream_gate fixed s t path None in
+Definition step_wsopen (fixed : bool) (s : state) (kind : Z) (path : bytes) (t : tokv) (chan : nat)
+           (hdrs : list hdr) : state * obs :=
+  let '(code, uname) := stream_gate fixed s t path None hdrs in
   if negb (code =? 200) then
     (if (kind =? 0) || (kind =? 1)
      then set_conns s (conns s ++ [dead_conn]) (reg s) (ctr s) else s, ob code 0 false 0)
@@ -562,8 +604,9 @@ Definition step_wsp (fixed : bool) (s : state) (k : nat) (m : Z) : state * obs :
     (put_conn s k c2 (reg s) (ctr s),
      ob code 0 ((m =? M_PLAY) && (c_status c2 =? 2) && c_data c2 && flowing (reg s) c2) 0).
 
-Definition step_http (fixed : bool) (s : state) (kind : Z) (path : bytes) (t : tokv) (seq : Z) : state * obs :=
-  let '(code, _) := stream_gate fixed s t path (if kind =? 2 then Some (seq_name seq) else None) in
+Definition step_http (fixed : bool) (s : state) (kind : Z) (path : bytes) (t : tokv) (seq : Z)
+           (hdrs : list hdr) : state * obs :=
+  let '(code, _) := stream_gate fixed s t path (if kind =? 2 then Some (seq_name seq) else None) hdrs in
   if negb (code =? 200) then (s, ob code 0 false 0)
   else match live (reg s) path with
        | None => (s, ob 404 0 false 0)
@@ -575,8 +618,9 @@ Definition step_http (fixed : bool) (s : state) (kind : Z) (path : bytes) (t : t
            else (s, ob 200 0 true 0)
        end.
 
-Definition step_api (s : state) (ep : Z) (t : tokv) (u : user) (upd_pw : bool) (name : bytes) : state * obs :=
-  let code := api_gate s ep t in
+Definition step_api (s : state) (ep : Z) (t : tokv) (u : user) (upd_pw : bool) (name : bytes)
+           (hdrs : list hdr) : state * obs :=
+  let code := api_gate s ep t hdrs in
   let s1 := if code =? 2 then
               (if ep =? EP_SAVE_USER then set_users s (save_user (users s) u upd_pw)
                else if ep =? EP_DEL_USER then set_users s (del_user (users s) name)
@@ -595,11 +639,20 @@ Definition step_gen (fixed : bool) (watch : list bytes) (s : state) (ev : event)
       (* newSession draws the session id and the nonce *)
       (set_conns s (conns s ++ [conn0 K_RTSP [] []]) (reg s) (ctr s + 2), ob 0 0 false (ctr s + 1))
   | ERtsp k m path cr => step_rtsp fixed watch s k m path cr
-  | EWsOpen kind path t chan => step_wsopen fixed s kind path t chan
+  | EWsOpen kind path t chan hdrs => step_wsopen fixed s kind path t chan hdrs
   | EWsRtsp k m path => step_wsrtsp fixed watch s k m path
   | EWsp k m path => step_wsp fixed s k m
-  | EHttp kind path t seq => step_http fixed s kind path t seq
-  | EApi ep t u upd_pw name => step_api s ep t u upd_pw name
+  | EHttp kind path t seq hdrs => step_http fixed s kind path t seq hdrs
+  | EApi ep t u upd_pw name hdrs => step_api s ep t u upd_pw name hdrs
+  end.
+
+(* the same request without the headers the client chose *)
+Definition strip_hdrs (ev : event) : event :=
+  match ev with
+  | EWsOpen kind path t chan _ => EWsOpen kind path t chan []
+  | EHttp kind path t seq _ => EHttp kind path t seq []
+  | EApi ep t u upd_pw name _ => EApi ep t u upd_pw name []
+  | _ => ev
   end.
 
 Definition step := step_gen true.
@@ -651,9 +704,9 @@ Definition identity (s : state) (ev : event) : option bytes :=
   | ERtsp k _ _ cr => digest_identity (users s) (get_conn s k) cr
   | EWsRtsp k _ _ => Some (c_user (get_conn s k))
   | EWsp k _ _ => Some (c_user (get_conn s k))
-  | EWsOpen _ _ t _ => token_identity s t
-  | EHttp _ _ t _ => token_identity s t
-  | EApi _ t _ _ _ => token_identity s t
+  | EWsOpen _ _ t _ _ => token_identity s t
+  | EHttp _ _ t _ _ => token_identity s t
+  | EApi _ t _ _ _ _ => token_identity s t
   | _ => None
   end.
 
@@ -673,9 +726,9 @@ Definition target (s : state) (ev : event) : action * bytes :=
   | ERtsp k m path _ => rtsp_target false (get_conn s k) m path
   | EWsRtsp k m path => rtsp_target true (get_conn s k) m path
   | EWsp k m _ => (APull, if m =? M_DESCRIBE then c_wspath (get_conn s k) else c_path (get_conn s k))
-  | EWsOpen kind path _ chan => (APull, path)
-  | EHttp _ path _ _ => (APull, path)
-  | EApi ep _ _ _ _ => (if ep_read ep then AApiRead else AAdmin, [])
+  | EWsOpen kind path _ chan _ => (APull, path)
+  | EHttp _ path _ _ _ => (APull, path)
+  | EApi ep _ _ _ _ _ => (if ep_read ep then AApiRead else AAdmin, [])
   | _ => (AApiRead, [])
   end.
 
@@ -691,18 +744,18 @@ Definition hands_out_method (m : Z) : bool := negb (is_setup m).
 Definition granted (ev : event) (o : obs) : bool :=
   match ev with
   | ERtsp _ m _ _ | EWsRtsp _ m _ | EWsp _ m _ => hands_out_method m && ((o_code o =? 200) || o_media o)
-  | EWsOpen kind _ _ _ => (o_code o =? 101) || o_media o
-  | EHttp _ _ _ _ => (o_code o =? 200) || o_media o
-  | EApi ep _ _ _ _ => negb (ep_open ep) && (o_code o =? 2)
+  | EWsOpen kind _ _ _ _ => (o_code o =? 101) || o_media o
+  | EHttp _ _ _ _ _ => (o_code o =? 200) || o_media o
+  | EApi ep _ _ _ _ _ => negb (ep_open ep) && (o_code o =? 2)
   | _ => false
   end.
 (* the request is answered with success *)
 Definition accepted (ev : event) (o : obs) : bool :=
   match ev with
   | ERtsp _ _ _ _ | EWsRtsp _ _ _ | EWsp _ _ _ => o_code o =? 200
-  | EWsOpen kind _ _ _ => o_code o =? 101
-  | EHttp _ _ _ _ => (o_code o =? 200) && o_media o
-  | EApi ep _ _ _ _ => o_code o =? 2
+  | EWsOpen kind _ _ _ _ => o_code o =? 101
+  | EHttp _ _ _ _ _ => (o_code o =? 200) && o_media o
+  | EApi ep _ _ _ _ _ => o_code o =? 2
   | _ => false
   end.
 
@@ -734,13 +787,13 @@ Definition feasible (watch : list bytes) (s : state) (ev : event) : bool :=
   | EWsp k m _ =>
       let c := get_conn s k in
       (c_kind c =? K_WSP) && (let '(_, code) := wsp_handle true (fun _ _ => true) (reg s) c m in code =? 200)
-  | EWsOpen kind _ _ _ => true
-  | EHttp kind path _ seq =>
+  | EWsOpen kind _ _ _ _ => true
+  | EHttp kind path _ seq _ =>
       match live (reg s) path with
       | Some o => if kind =? 0 then true else (o =? 1) && negb ((kind =? 2) && negb (seg_listed seq))
       | None => false
       end
-  | EApi _ _ _ _ _ => true
+  | EApi _ _ _ _ _ _ => true
   | _ => false
   end.
 
@@ -749,15 +802,15 @@ Definition feasible (watch : list bytes) (s : state) (ev : event) : bool :=
    authenticated is told so (401), and a publication appears in the registry only by a granted RECORD *)
 Definition is_request (ev : event) : bool :=
   match ev with
-  | ERtsp _ _ _ _ | EWsRtsp _ _ _ | EWsp _ _ _ | EWsOpen _ _ _ _ | EHttp _ _ _ _ => true
-  | EApi ep _ _ _ _ => negb (ep_open ep)
+  | ERtsp _ _ _ _ | EWsRtsp _ _ _ | EWsp _ _ _ | EWsOpen _ _ _ _ _ | EHttp _ _ _ _ _ => true
+  | EApi ep _ _ _ _ _ => negb (ep_open ep)
   | _ => false
   end.
 
 Definition unauth_code (ev : event) (o : obs) : bool :=
   match ev with
   | ERtsp _ _ _ _ => (o_code o =? 401) || (o_code o =? 455) || (o_code o =? (-1))
-  | EWsOpen _ _ _ _ | EHttp _ _ _ _ | EApi _ _ _ _ _ => o_code o =? 401
+  | EWsOpen _ _ _ _ _ | EHttp _ _ _ _ _ | EApi _ _ _ _ _ _ => o_code o =? 401
   | _ => true
   end.
 
@@ -765,7 +818,7 @@ Definition unauth_code (ev : event) (o : obs) : bool :=
    verified user of that control channel and hold the pull right on its path now; the owner is not refused *)
 Definition judge_join (s : state) (ev : event) (o : obs) : bool :=
   match ev with
-  | EWsOpen kind path _ chan =>
+  | EWsOpen kind path _ chan _ =>
       if kind =? 2 then
         let c := get_conn s chan in
         match identity s ev with
